@@ -7,7 +7,7 @@ import random
 import vf
 
 ALPHABET = [b"a", b"7", b"_", b"-", b".", "é".encode(), "€".encode(),
-            "\U0001F600".encode(), "�".encode(), b"\xff"]
+            "\U0001F600".encode(), "�".encode(), b"\xff", "\u0663".encode()]          # the last one: a decimal digit outside ASCII
 
 TRUSTED = [
     "Coq 8.16.1 kernel (coqc; coqchk in the thorough tier); vm_compute used in Examples only",
@@ -18,7 +18,16 @@ TRUSTED = [
 
 
 def corpus():
-    out = [b"a\xffb-", b"a\xffbcd", b"a\xef\xbf\xbdb-", b"", b"9", b"--", b"a--b", b"-", b"\xf0\x9f\x98", b"\xed\xa0\x80",
+    # every boundary of the UTF-8 length classes and of the surrogate gap, alone, between letters, between dashes, after a digit
+    edges = [0x7F, 0x80, 0x7FF, 0x800, 0xFFFF, 0x10000, 0x10FFFF, 0xD7FF, 0xE000, 0xFFFD, 0xFFFE, 0x100, 0x660, 0x669]
+    out = []
+    for cp in edges:
+        u = chr(cp).encode("utf-8")
+        out += [u, b"a" + u + b"b", b"-" + u + b"-", b"1" + u, u + u, b"a" + u, u + b"-" + u]
+    # lengths around every power of two a fixed buffer could have
+    for n in (63, 64, 65, 127, 128, 129, 255, 256, 257, 1023, 1024, 1025, 4095, 4096, 4097):
+        out += [b"a" * n, b"a" * (n - 1) + b"-", b"-" * n, b"a" * (n - 2) + "\u20ac".encode()[:3], b"9" + b"b" * (n - 1), b"a" * (n - 1) + b"\xff"]
+    out += [b"a\xffb-", b"a\xffbcd", b"a\xef\xbf\xbdb-", b"", b"9", b"--", b"a--b", b"-", b"\xf0\x9f\x98", b"\xed\xa0\x80",
            b"\xc0\x80", b"\xe0\x80\x80", b"\xf4\x90\x80\x80", b"a\x00b", b"_", b"A-Z_09", b"\xc3", b"x\xc3\xa9-\xc3-"]
     return out
 
@@ -31,14 +40,19 @@ def gen(tier, seed):
         for t in itertools.product(ALPHABET, repeat=n):
             cases.append(b"".join(t))
     nrand = 20000 if tier == "quick" else 400000
-    pool = [b"-", b"_", b".", b"a", b"Z", b"0", b"9", b"\xff", b"\x80", b"\xc3", b"\xe2\x82", b"\xf0\x9f", b":", b" "] + ALPHABET
+    import gen_line as GL
+    pool = [b"-", b"_", b".", b"a", b"Z", b"0", b"9", b"\xff", b"\x80", b"\xc3", b"\xe2\x82", b"\xf0\x9f", b":", b" "] + ALPHABET + GL.UNICODE_ATOMS
     for _ in range(nrand):
         k = rnd.randint(1, 64)
         mode = rnd.random()
         if mode < 0.4:
             cases.append(bytes(rnd.randrange(256) for _ in range(k)))
-        elif mode < 0.8:
+        elif mode < 0.7:
             cases.append(b"".join(rnd.choice(pool) for _ in range(rnd.randint(1, 24)))[:64] or b"a")
+        elif mode < 0.8:
+            # any assigned-looking code point: one in ~250 is a non-ASCII digit, one in 3 a letter
+            cases.append("".join(chr(rnd.choice([rnd.randrange(0x80, 0x3000), rnd.randrange(0x3000, 0xD800), rnd.randrange(0xE000, 0x30000)]))
+                                 for _ in range(rnd.randint(1, 12))).encode("utf-8"))
         else:
             cases.append(bytes(rnd.choice(b"abcXYZ019_-.") for _ in range(k)))
     return cases
@@ -67,7 +81,7 @@ def clause(inp, impl_line, spec_hex):
 
 def run(rep, tier, seed, replay):
     rep.cov["trusted_base"] = TRUSTED
-    rep.cov["rule"] = ("corpus + all strings over a 10-symbol alphabet (letter, digit, _, -, ., 2/3/4-byte rune, "
+    rep.cov["rule"] = ("corpus + all strings over an 11-symbol alphabet (letter, digit, _, -, ., 2/3/4-byte rune, a non-ASCII decimal digit, "
                        "U+FFFD, stray 0xff) up to length %d + random byte strings <= 64; non-trivial = the "
                        "escaped result differs from the input; distinct by input bytes" % (5 if tier == "quick" else 6))
     rep.cov["exhaustive"] = False
